@@ -23,9 +23,18 @@ import (
 	"verif/harness/sim"
 )
 
+// one recorder for the package: TestC05 (fault schedules) and TestC05FatLog (replay of a log of many megabytes)
+var shared *mon.Recorder
+
+func TestMain(m *testing.M) {
+	shared = mon.Open("C05")
+	code := m.Run()
+	shared.Close()
+	os.Exit(code)
+}
+
 func TestC05(t *testing.T) {
-	rec := mon.Open("C05")
-	defer rec.Finish(t)
+	rec := shared
 	if only := os.Getenv("VERIF_CASE"); only != "" {
 		var c int
 		fmt.Sscan(only, &c)
